@@ -14,6 +14,7 @@ import (
 	"time"
 
 	"go.temporal.io/server/api/adminservice/v1"
+	enumsspb "go.temporal.io/server/api/enums/v1"
 	persistencespb "go.temporal.io/server/api/persistence/v1"
 	replicationv1 "go.temporal.io/server/api/replication/v1"
 	"go.temporal.io/server/client/history"
@@ -250,9 +251,14 @@ func vrRunScenario(t *testing.T, lines []string, out func(string)) {
 		atoi := func(i int) int { n, _ := strconv.Atoi(f[i]); return n }
 		atoi64 := func(i int) int64 { n, _ := strconv.ParseInt(f[i], 10, 64); return n }
 		switch f[0] {
-		case "S":
+		case "S", "SL":
+			// SL: the same on the source's low-priority lane (a source multiplexes two lanes on one stream, each with its own
+			// id and watermark sequence)
 			s := atoi(1)
 			msg := &replicationv1.WorkflowReplicationMessages{ExclusiveHighWatermark: atoi64(2)}
+			if f[0] == "SL" {
+				msg.Priority = enumsspb.TASK_PRIORITY_LOW
+			}
 			n := atoi(3)
 			for k := 0; k < n; k++ {
 				id, owner, pay := atoi64(4+3*k), atoi(5+3*k), f[6+3*k]
@@ -276,8 +282,18 @@ func vrRunScenario(t *testing.T, lines []string, out func(string)) {
 		case "A":
 			tg := atoi(1)
 			if h := sc.tgtH[tg]; h != nil {
+				// a target running tiered replication: the top-level watermark is the minimum over its lanes; its
+				// high-priority lane is ahead (it has drained everything it was sent), its low-priority lane is the laggard
+				h.stream.mu.Lock()
+				ahead := h.stream.maxHigh
+				h.stream.mu.Unlock()
+				if ahead < atoi64(2) {
+					ahead = atoi64(2)
+				}
 				h.stream.recv <- vfItem[vfReq]{val: &vfReq{Attributes: &adminservice.StreamWorkflowReplicationMessagesRequest_SyncReplicationState{
-					SyncReplicationState: &replicationv1.SyncReplicationState{InclusiveLowWatermark: atoi64(2)}}}}
+					SyncReplicationState: &replicationv1.SyncReplicationState{InclusiveLowWatermark: atoi64(2),
+						HighPriorityState: &replicationv1.ReplicationState{InclusiveLowWatermark: ahead},
+						LowPriorityState:  &replicationv1.ReplicationState{InclusiveLowWatermark: atoi64(2)}}}}}
 			}
 		case "C":
 			sc.openTarget(atoi(1))
@@ -319,6 +335,15 @@ func vrRunScenario(t *testing.T, lines []string, out func(string)) {
 			}
 			sc.settle()
 			sc.openSource(s)
+		case "SA":
+			// every source announces the watermark <h> (an empty batch), one after the other
+			for k := 0; k < sc.ns; k++ {
+				if cs := sc.reverse.current(history.ClusterShardID{ClusterID: vrSrcCluster, ShardID: int32(k + 1)}); cs != nil {
+					cs.recv <- vfItem[vfResp]{val: &vfResp{Attributes: &adminservice.StreamWorkflowReplicationMessagesResponse_Messages{
+						Messages: &replicationv1.WorkflowReplicationMessages{ExclusiveHighWatermark: atoi64(1)}}}}
+					time.Sleep(5 * time.Millisecond) // the sources' periodic announcements are not synchronised
+				}
+			}
 		case "AQ":
 			// an honest, lagging target: it has processed everything it received and computes its acknowledgement now (the
 			// greatest watermark it has been sent) - the acknowledgement travels and arrives at AF
